@@ -694,8 +694,10 @@ func (e *env) apply(p *txPair, op Op) {
 		if op.Target >= 1<<40 && len(hs) != 0 {
 			e.failf("", "%s: %d blocks pruned although the target exceeds any possible store size", op, len(hs))
 		}
+		if len(hs) > 0 || p.prunes > 0 {
+			p.prunes++ // every call after one that scheduled deletions re-schedules the same files
+		}
 		if len(hs) > 0 {
-			p.prunes++
 			e.classes["prune"] = true
 			if p.m.IsOldestPrefix(hs) {
 				e.rec.Count("prune-oldest-prefix", 1)
